@@ -229,15 +229,25 @@ def tagf(t):
     return ['1', t] if t is not None else ['0', '']
 
 
-def src_snapshot(path, cwd):
+def src_snapshot(path, cwd, follow=None):
+    """F-record fields srckind, mode, mtime, digest|target.  A symbolic link that meson follows (follow_symlinks
+    true or unset) is the regular file it points to; one installed as a link is K (mtime = its target's, '' = dangling)."""
     p = path if os.path.isabs(path) else os.path.join(cwd, path)
     if not os.path.lexists(p):
         return ['M', '0', '0', '']
     st = os.lstat(p)
+    if stat.S_ISLNK(st.st_mode):
+        tgt = os.readlink(p)
+        if not os.path.exists(p):
+            return ['K', '0', '', tgt]
+        if os.path.isdir(p):
+            return ['X', '0', '0', '']      # a link to a directory as a file source: outside the model
+        ts = os.stat(p)
+        if follow is False:
+            return ['K', '0', str(int(ts.st_mtime)), tgt]
+        return ['R', str(stat.S_IMODE(ts.st_mode)), str(int(ts.st_mtime)), digest_file(p)]
     if stat.S_ISREG(st.st_mode):
         return ['R', str(stat.S_IMODE(st.st_mode)), str(int(st.st_mtime)), digest_file(p)]
-    if stat.S_ISLNK(st.st_mode):
-        return ['X', '0', '0', '']          # symlinked sources are outside the model
     return ['O', '0', '0', '']
 
 
@@ -258,9 +268,9 @@ def plan_records(build):
                     oom.append('target kind ' + src)
             else:
                 src, dst, optional = i.path, i.install_path, False
-            snap = src_snapshot(src, d.build_dir)
+            snap = src_snapshot(src, d.build_dir, getattr(i, 'follow_symlinks', None))
             if snap[0] == 'X':
-                oom.append('symlink source ' + src)
+                oom.append('symlink-to-directory source ' + src)
             m = i.install_mode
             if m is not None and (m.owner is not None or m.group is not None):
                 oom.append('chown')
@@ -285,11 +295,13 @@ def plan_records(build):
                 dd.append(S3.join([x, str(stat.S_IMODE(st.st_mode))]))
             for x in files:
                 p = os.path.join(root, x)
-                st = os.lstat(p)
-                if not stat.S_ISREG(st.st_mode):
+                snap = src_snapshot(p, root, s.follow_symlinks)
+                if snap[0] == 'R':
+                    ff.append(S3.join([x, snap[1], snap[2], snap[3], '']))
+                elif snap[0] == 'K':
+                    ff.append(S3.join([x, '0', snap[2] or '0', snap[3], 'L' if snap[2] else 'X']))
+                else:
                     oom.append('non-regular file in subdir')
-                    continue
-                ff.append(S3.join([x, str(stat.S_IMODE(st.st_mode)), str(int(st.st_mtime)), digest_file(p)]))
             recs.append(S1.join(['W', rel, str(stat.S_IMODE(os.lstat(root).st_mode)), S2.join(dd), S2.join(ff)]))
     meta = {'prefix': d.prefix, 'umask': um,
             'items': {k: len(getattr(d, k)) for k in ('targets', 'headers', 'man', 'data', 'emptydir', 'symlinks', 'install_subdirs')},
@@ -332,7 +344,7 @@ def oracle_step(k, step, before, after, ctxo):
 
     links = {}
     for lp, ln in before.items():
-        if ln[0] == 'L':
+        if ln[0] == 'L' and under(lp, ctxo['arena']):     # links that were already inside the arena, not source links
             links[os.path.normpath(os.path.join(os.path.dirname(lp), ln[3]))] = lp
 
     def add(kind, **kw):
@@ -478,7 +490,9 @@ def do_project(payload):
     src, build = os.path.join(proj, 'src'), os.path.join(proj, 'build')
     os.makedirs(root)
     os.makedirs(src)
-    files = [dict(f, content=subst(f.get('content', ''), root)) if not f.get('dir') else f for f in spec['files']]
+    files = [dict(f, content=subst(f.get('content', ''), root), **({'link': subst(f['link'], root)} if f.get('link') is not None else {}))
+             if not f.get('dir') else f for f in spec['files']]
+    write_tree(root, spec.get('root_files', []))      # sentinels outside DESTDIR and outside the source tree
     write_tree(src, files)
     res = {'histories': [], 'setup_ok': False}
     args = ['setup', build, src] + [subst(a, root) for a in spec['setup_args']]
@@ -579,7 +593,7 @@ def do_project(payload):
             nodes = sorted(node_line(p, n) for p, n in after.items() if under(p, arena))
             impl_blocks.append({'status': status, 'nodes': nodes, 'log': log_lines(log_after),
                                 'rc': r.returncode, 'tail': (r.stdout + r.stderr)[-600:] if r.returncode else ''})
-            octx = {'destdir': D, 'logfile': logfile, 'build_logs': os.path.join(build, 'meson-logs'), 'proj': proj,
+            octx = {'arena': arena, 'destdir': D, 'logfile': logfile, 'build_logs': os.path.join(build, 'meson-logs'), 'proj': proj,
                     'log_after': log_after, 'log_before': log_before, 'rc': r.returncode}
             ofails += oracle_step(k, step, before, after, octx)
             # created set within the specified set, whatever existed before (pre-populated trees, reinstalls,
@@ -592,6 +606,12 @@ def do_project(payload):
                         if under(p_, arena) and p_ not in before and p_ not in exp_any:
                             ofails.append({'kind': 'unplanned_new', 'step': k, 'path': p_, 'node': after[p_]})
                             if sum(1 for f_ in ofails if f_['kind'] == 'unplanned_new') > 6:
+                                break
+                    # ... and a path that was there before changes (content, kind OR permission bits) only if it is a destination
+                    for p_ in sorted(after):
+                        if under(p_, arena) and p_ in before and before[p_] != after[p_] and p_ not in exp_any:
+                            ofails.append({'kind': 'unplanned_change', 'step': k, 'path': p_, 'before': before[p_], 'after': after[p_]})
+                            if sum(1 for f_ in ofails if f_['kind'] == 'unplanned_change') > 6:
                                 break
             # exactness: first step, real install, empty arena, succeeded
             if (k == 0 and step['op'] == 'install' and not step.get('dry') and not hist.get('pre')
